@@ -424,7 +424,9 @@ pub async fn sanitize_async_with_config<R: AsyncRead + AsyncSkip>(
         Some(0) => {
             log::info!("metadata: 0x{metadata_len:08x} bytes");
         }
-        Some(size @ PAD_HEADER_SIZE..=MAX_PAD_SIZE) => {
+        // Only pad if the padding is no larger than the metadata itself, so that the size of the returned metadata is
+        // bounded by the size of the input's metadata rather than by the amount of free space preceding the media data.
+        Some(size @ PAD_HEADER_SIZE..=MAX_PAD_SIZE) if size <= metadata_len => {
             pad_size = size;
             log::info!("metadata: 0x{metadata_len:08x} bytes; adding padding of 0x{pad_size:08x} bytes");
         }
